@@ -2,7 +2,7 @@
 import oracle as O
 from common import Case, Pred, tl
 from props.pairutil import IMPLS, f12, grp, lib_pairing, pair_case
-from props.util import BLS_MC12, espec, nontrivial_default
+from props.util import BLS_MC12, espec, nontrivial_default, structured_scales
 
 RULE = ("correspondence: all four pairing implementations of the model vs the real ones on the same subgroup point pairs (exact FQ12 "
         "equality, random projective representatives), final_exponentiate / exp_by_p of the model vs the real functions on 0, 1, sparse, random "
@@ -39,6 +39,13 @@ def cases(rng, tier):
             cs.append(pair_case("Opt" + curve, Q, Pt, rng))
             cs.append(pair_case("Opt" + curve, Q, Pt, rng, fe=0))
             cs.append(pair_case("Ref" + curve, Q, Pt))
+        # structured (non-random) projective representatives: base-field z, z = i, 1+i, 9+i, ...
+        Qs, Ps = O.aff_mul(g2.gen, rng.randrange(1, r)), O.aff_mul(g1.gen, rng.randrange(1, r))
+        cs.append(pair_case("Ref" + curve, Qs, Ps))
+        for sq in structured_scales(g2.b)[: (5 if tier == "quick" else 99)]:
+            cs.append(pair_case("Opt" + curve, Qs, Ps, rng, sq=sq, sp=g1.b.like(1)))
+        for sp in structured_scales(g1.b)[1:3]:
+            cs.append(pair_case("Opt" + curve, Qs, Ps, rng, sq=g2.b.like(1), sp=sp))
         # the identity (a subgroup point) in NON-canonical projective representations (proj_tokens(None, s) = (s, 1, 0))
         cs.append(pair_case("Opt" + curve, None, O.aff_mul(g1.gen, 3), rng))
         cs.append(pair_case("Opt" + curve, O.aff_mul(g2.gen, 3), None, rng))
@@ -64,6 +71,21 @@ def opt_eq_ref_pred(curve, a, b, seed):
     if o1 != o2:
         bad.append("depends on the projective representative")
     return (not bad, f"{curve}: {bad} at a={a} b={b}")
+
+
+def structured_rep_pred(curve, a, b):
+    """optimized pairing on structured representatives (z in the base field, z = i, 1+i, 9+i, ...) == reference pairing"""
+    g1, g2 = grp("Opt" + curve, "G1"), grp("Opt" + curve, "G2")
+    Pt, Q = O.aff_mul(g1.gen, a), O.aff_mul(g2.gen, b)
+    rf = lib_pairing("Ref" + curve, Q, Pt)
+    bad = []
+    for sq in structured_scales(g2.b):
+        if lib_pairing("Opt" + curve, Q, Pt, sq=sq, sp=g1.b.like(1)) != rf:
+            bad.append(f"Q scaled by {sq}")
+    for sp in structured_scales(g1.b):
+        if lib_pairing("Opt" + curve, Q, Pt, sq=g2.b.like(1), sp=sp) != rf:
+            bad.append(f"P scaled by {sp}")
+    return (not bad, f"{curve}: optimized pairing differs from the reference on representatives {bad[:4]} of the same points (a={a}, b={b})")
 
 
 def inf_rep_pred(curve, seed):
@@ -143,6 +165,7 @@ def predicates(rng, tier, only=None):
         for _ in range(1 if tier == "quick" else 8):
             ps.append(Pred("opt-eq-ref", opt_eq_ref_pred, (curve, rng.randrange(1, r), rng.randrange(1, r), rng.randrange(1 << 30))))
         ps.append(Pred("opt-eq-ref-at-identity", inf_rep_pred, (curve, 0)))
+        ps.append(Pred("opt-eq-ref-structured-reps", structured_rep_pred, (curve, rng.randrange(1, r), rng.randrange(1, r))))
         for k in ([2] if tier == "quick" else [1, 2, 3, 6]):
             ps.append(Pred("two-step", two_step_pred, (curve, [(rng.randrange(1, r), rng.randrange(1, r)) for _ in range(k)], rng.randrange(1 << 30))))
     for x in elems(rng, tier):
